@@ -33,6 +33,33 @@ struct MockPrint : Print {
 };
 #endif
 
+
+// ---- C13 copyArray: destinations live in exactly-sized heap blocks so that ASan sees any write beyond them
+template <typename T> static string cellStr(T v) { return std::to_string((long long)v); }
+template <> string cellStr<unsigned long long>(unsigned long long v) { return std::to_string(v); }
+template <> string cellStr<unsigned long>(unsigned long v) { return std::to_string(v); }
+template <> string cellStr<float>(float v) { uint32_t b; memcpy(&b, &v, 4); char t[16]; snprintf(t, 16, "%08x", b); return t; }
+template <> string cellStr<double>(double v) { uint64_t b; memcpy(&b, &v, 8); char t[24]; snprintf(t, 24, "%016llx", (unsigned long long)b); return t; }
+template <typename T> static string copyOut1(JsonVariantConst src, size_t n) {
+  T* dst = (T*)malloc(n * sizeof(T)); memset((void*)dst, 0x5A, n * sizeof(T));
+  size_t c = copyArray(src.as<JsonArrayConst>(), dst, n);
+  string o = std::to_string(c); for (size_t i = 0; i < n; i++) o += " " + cellStr<T>(dst[i]);
+  free(dst); return o; }
+template <typename T> static string copyOutFixed3(JsonVariantConst src) {
+  struct S { T a[3]; }; S* s = (S*)malloc(sizeof(S)); memset((void*)s, 0x5A, sizeof(S));
+  size_t c = copyArray(src.as<JsonArrayConst>(), s->a);
+  string o = std::to_string(c); for (size_t i = 0; i < 3; i++) o += " " + cellStr<T>(s->a[i]);
+  free(s); return o; }
+template <typename T> static string copyOut2(JsonVariantConst src) {
+  struct S { T a[2][3]; }; S* s = (S*)malloc(sizeof(S)); memset((void*)s, 0x5A, sizeof(S));
+  size_t c = copyArray(src.as<JsonArrayConst>(), s->a);
+  string o = std::to_string(c); for (size_t i = 0; i < 2; i++) for (size_t j = 0; j < 3; j++) o += " " + cellStr<T>(s->a[i][j]);
+  free(s); return o; }
+template <size_t N> static string copyStrN(JsonVariantConst src) {
+  struct S { char a[N]; }; S* s = (S*)malloc(sizeof(S)); memset((void*)s, 0x5A, sizeof(S));
+  size_t c = copyArray(src, s->a);
+  string o = std::to_string(c) + " " + hexs(string(s->a, N)); free(s); return o; }
+
 // one deserialization through reader kind `rk`; fmt 'j' or 'm'; filter optional
 template <typename... Opts>
 static DeserializationError deser(char fmt, JsonDocument& d, int rk, const string& in, long& consumed, Opts... opts) {
@@ -215,6 +242,31 @@ int main(int argc, char** argv) {
     } else if (op == "geoq") {
       out = std::to_string((int)ARDUINOJSON_POOL_CAPACITY) + " " + std::to_string((int)ARDUINOJSON_INITIAL_POOL_COUNT) + " " + std::to_string((int)ARDUINOJSON_SLOT_ID_SIZE) + " " +
             std::to_string((int)StringNode::sizeForLength(0)) + " " + std::to_string((unsigned long long)StringNode::maxLength);
+    } else if (op == "copyarr" || op == "copyarr3" || op == "copyarr2") {
+      // C13: copyArray(document -> C array) with destination length n (pointer+length form), T(&)[3] and T(&)[2][3]
+      int cfg; string kind, spec; size_t n = 0; is >> cfg >> kind; if (op == "copyarr") is >> n; is >> spec;
+      if (cfg != cfgBits()) { std::cout << "cfg-mismatch\n"; continue; }
+      JsonDocument d(&SPY0); buildDoc(d, spec);
+      JsonVariantConst v = d.as<JsonVariantConst>();
+#define CA_DISPATCH(F, ...) (kind == "i8" ? F<signed char>(__VA_ARGS__) : kind == "u8" ? F<unsigned char>(__VA_ARGS__) : kind == "i16" ? F<short>(__VA_ARGS__) : kind == "u16" ? F<unsigned short>(__VA_ARGS__) : \
+        kind == "i32" ? F<int>(__VA_ARGS__) : kind == "u32" ? F<unsigned int>(__VA_ARGS__) : kind == "i64" ? F<long long>(__VA_ARGS__) : kind == "u64" ? F<unsigned long long>(__VA_ARGS__) : \
+        kind == "f" ? F<float>(__VA_ARGS__) : F<double>(__VA_ARGS__))
+      if (op == "copyarr") out = CA_DISPATCH(copyOut1, v, n);
+      else if (op == "copyarr3") out = CA_DISPATCH(copyOutFixed3, v);
+      else out = CA_DISPATCH(copyOut2, v);
+    } else if (op == "copystr") {
+      size_t n; string spec; is >> n >> spec;
+      JsonDocument d(&SPY0); buildDoc(d, spec);
+      JsonVariantConst v = d.as<JsonVariantConst>();
+      out = n == 1 ? copyStrN<1>(v) : n == 2 ? copyStrN<2>(v) : n == 4 ? copyStrN<4>(v) : n == 8 ? copyStrN<8>(v) : string("bad-size");
+    } else if (op == "jsonmem") {
+      // C06: memory requested by one deserializeJson call (total of the sizes asked for, and the high-water mark)
+      int cfg, lim; string hex; is >> cfg >> lim >> hex;
+      if (cfg != cfgBits()) { std::cout << "cfg-mismatch\n"; continue; }
+      string in = unhex(hex); Block b(in); CountingReader r{b.p, in.size()};
+      JsonDocument d(&SPY0); SPY0.requested = 0; SPY0.markPeak(); size_t base = SPY0.cur;
+      DeserializationError e = deserializeJson(d, r, DeserializationOption::NestingLimit((uint8_t)lim));
+      out = string(e.c_str()) + " " + std::to_string(r.pos) + " req=" + std::to_string(SPY0.requested) + " peak=" + std::to_string(SPY0.peak - base);
     } else if (op == "conv") {
       // C13: every typed extraction of the root value
       int cfg; string spec; is >> cfg >> spec;
